@@ -1,23 +1,19 @@
-(** The int32 arithmetic of /repo/bitstr/bitstr.go made explicit.
-    [New]'s [fromBit], [toBit], [fromByte], [toByte], [l] are Go [int32]; [Len]
-    computes in [int32].  Model/Bitstr.v uses unbounded [Z] for them; here every
-    int32 operation wraps ([i32], arithmetic shifts [sar32]/[sar64], [sshl32]).
-    Since the fix b2a771a the end byte is computed in int64
-    ([int32((int64(toBit) + 7) >> 3)]), so nothing overflows on the int32 range:
-    Proofs/Bitstr32Proofs.v shows [New32 = New] for all 0 <= from <= to < 2^31 and
-    [Len32 = Len] whenever Len's value fits int32.  The pre-fix arithmetic is
-    Model/LegacyBitstr32.v. *)
+(** LEGACY: bitstr.New as it was before the /repo fix b2a771a, with its int32
+    arithmetic explicit.  [(toBit + 7) >> 3] was computed in int32 and overflowed
+    for toBit > MaxInt32 - 7: [toByte] became -2^28 and [make] panicked
+    ("makeslice: len out of range").  Kept so that the refutation of the old
+    behaviour (Proofs/Bitstr32Proofs.v, Properties/C09.v: ..._refuted) stays a
+    checked statement.  The current code is modelled in Model/Bitstr32.v. *)
 From Coq Require Import ZArith List Bool.
 From Low Require Import Lib.MachInt Lib.Bits Lib.BitSeq Lib.Lex Model.Bitstr.
 Import ListNotations.
 Open Scope Z_scope.
 
-Definition New32 (s : list Z) (fromBit toBit : Z) : option (list Z) :=
+Definition New32_legacy (s : list Z) (fromBit toBit : Z) : option (list Z) :=
   if (fromBit =? toBit) && (Z.land fromBit 7 =? 0) then Some [255]
   else
     let fromByte := sar32 fromBit 3 in
-    (* toByte := int32((int64(toBit) + 7) >> 3) *)
-    let toByte := i32 (sar64 (i64 (toBit + 7)) 3) in
+    let toByte := sar32 (i32 (toBit + 7)) 3 in
     let l := i32 (toByte - fromByte) in
     (* bitStr := make([]byte, l+1): l+1 is int32 arithmetic; a negative length panics *)
     let n := i32 (l + 1) in
@@ -41,11 +37,3 @@ Definition New32 (s : list Z) (fromBit toBit : Z) : option (list Z) :=
             end
         end
     end.
-
-(** [int32(l)<<3 - 16 + int32(bits.OnesCount8(bs[l-1]))], every step in int32 *)
-Definition Len32 (bs : list Z) : option Z :=
-  let l := zlen bs in
-  match nthZ bs (l - 1) with
-  | Some last => Some (i32 (i32 (sshl32 (i32 l) 3 - 16) + popcount last))
-  | None => None
-  end.
